@@ -18,6 +18,7 @@ func init() {
 		e.opaqueRecv = func(t types.Type) bool { return mutableParam(t) != "" }
 		e.run()
 		Own(c, "R-OWN", e)
+		Handover(c, "R-HANDOVER", c.Pkg("immutable"))
 	})
 }
 
